@@ -72,3 +72,66 @@ Theorem C18_rateformat_arity : forall c u n out r,
   length (unit_parts u) = n /\ length (unit_parts out) = n.
 Proof. exact rateformat_arity. Qed.
 Print Assumptions C18_rateformat_arity.
+
+(* ---- float level (Proofs/C18F.v) ---- *)
+From Coq Require Import Qabs Qpower.
+From Coq Require PrimFloat FloatOps SpecFloat.
+From DSD Require Import Proofs.C18F.
+
+(* flint on a finite float: a numerically equal value, an int exactly when it is integral *)
+Theorem C18_flint_float : forall f,
+  PrimFloat.is_nan f = false -> PrimFloat.is_infinity f = false ->
+  match flint (NF f) with
+  | Ok (NI z) => (SF2Q (FloatOps.Prim2SF f) == inject_Z z)%Q
+  | Ok (NF g) => g = f /\ forall z, ~ (SF2Q (FloatOps.Prim2SF f) == inject_Z z)%Q
+  | Err _ => False
+  end.
+Proof. exact flint_float_spec. Qed.
+Print Assumptions C18_flint_float.
+
+Theorem C18_flint_int : forall z f,
+  int_to_float z = FOk f -> flint (NI z) = Ok (NI (sf_to_Z (FloatOps.Prim2SF f))).
+Proof. exact flint_int_spec. Qed.
+Print Assumptions C18_flint_int.
+
+(* uses the standard library's FloatAxioms.Prim2SF_SF2Prim *)
+Theorem C18_flint_small_int : forall z, (Z.abs z <= 2 ^ 53)%Z -> flint (NI z) = Ok (NI z).
+Proof. exact flint_small_int. Qed.
+Print Assumptions C18_flint_small_int.
+
+(* the recorded finding: beyond 2^53 the int returned need not be the argument *)
+Theorem C18_flint_bigint_refuted : exists z z', flint (NI z) = Ok (NI z') /\ z' <> z.
+Proof. exact flint_bigint_refuted. Qed.
+Print Assumptions C18_flint_bigint_refuted.
+
+(* convert_units on a float: within 3 * 2^-53 of the exact conversion when neither
+   intermediate (x = v * scale a, y = x / scale b) overflows or leaves the normal range.
+   Depends on the standard library's real-number and primitive-float axioms (via Flocq). *)
+Theorem C18_conv_float_mid : forall v a b r, convert_units (NF v) a b = Ok r ->
+  exists x y, conv_mid v a b = Some (x, y) /\ flint (NF y) = Ok r.
+Proof. exact convert_units_mid. Qed.
+Print Assumptions C18_conv_float_mid.
+
+Theorem C18_conv_float_close : forall v a b sa sb r x y,
+  scaleQ a = Some sa -> scaleQ b = Some sb ->
+  convert_units (NF v) a b = Ok r ->
+  conv_mid v a b = Some (x, y) ->
+  (Qpower 2 (-1022) < Qabs (F2Q x))%Q -> (Qpower 2 (-1022) < Qabs (F2Q y))%Q ->
+  (Qabs (numQ r - F2Q v * sa / sb) <= (3 # 9007199254740992) * Qabs (F2Q v * sa / sb))%Q.
+Proof. exact conv_float_close. Qed.
+Print Assumptions C18_conv_float_close.
+
+Theorem C18_conv_float_close_range : forall v a b sa sb r,
+  PrimFloat.is_nan v = false -> PrimFloat.is_infinity v = false ->
+  scaleQ a = Some sa -> scaleQ b = Some sb ->
+  convert_units (NF v) a b = Ok r ->
+  ((F2Q v == 0) \/ (Qpower 2 (-900) <= Qabs (F2Q v) /\ Qabs (F2Q v) <= Qpower 2 900))%Q ->
+  (Qabs (numQ r - F2Q v * sa / sb) <= (3 # 9007199254740992) * Qabs (F2Q v * sa / sb))%Q.
+Proof. exact conv_float_close_range. Qed.
+Print Assumptions C18_conv_float_close_range.
+
+(* the unconditional statement conv_float_close_full of Proofs/C18.v does not hold:
+   a product that underflows to a subnormal loses relative accuracy *)
+Theorem C18_conv_float_close_needs_no_underflow : ~ conv_float_close_full.
+Proof. exact conv_float_close_full_refuted. Qed.
+Print Assumptions C18_conv_float_close_needs_no_underflow.
